@@ -61,7 +61,10 @@ def gen_assembly_case(r):
     cub = [(-abs(q(-3, 3)) if zero_all else q(-3, 3)) for _ in range(m_nl)]
     if zero_all:
         b = [float(np.dot(a, x)) + abs(q(0, 2)) for a in A]
-    return {"lb": [repr(v) for v in lb], "ub": [repr(v) for v in ub], "x": x, "A": A, "b": b, "cub": cub}
+    m_eq = int(r.integers(0, 2))
+    Aeq = [[q(-2, 2) for _ in range(n)] for _ in range(m_eq)]
+    beq = [(float(np.dot(a, x)) if zero_all else q(-3, 3)) for a in Aeq]
+    return {"lb": [repr(v) for v in lb], "ub": [repr(v) for v in ub], "x": x, "A": A, "b": b, "Aeq": Aeq, "beq": beq, "cub": cub}
 
 
 def run_assembly_cases(cases):
@@ -75,12 +78,14 @@ def run_assembly_cases(cases):
         x = np.array(c["x"], dtype=float)
         n = len(x)
         lin = [LinearConstraint(np.array(c["A"], dtype=float).reshape(-1, n), -np.inf, np.array(c["b"], dtype=float))] if c["A"] else []
+        if c.get("Aeq"):
+            lin.append(LinearConstraint(np.array(c["Aeq"], dtype=float).reshape(-1, n), np.array(c["beq"], dtype=float), np.array(c["beq"], dtype=float)))
         nl = [NonlinearConstraint(lambda z, vals=tuple(c["cub"]): np.array(vals, dtype=float), -np.inf, 0.0)] if c["cub"] else []
         pb = impl.make_problem(lambda z: 0.0, np.array(x), Bounds(np.array(lb), np.array(ub)), lin, nl)
         _, cub, ceq = pb(np.array(x))              # the real evaluation path (the constraint objects exist only after a call)
         cub = np.asarray(cub, dtype=float)
         got = float(pb.maxcv(x, cub, ceq))
-        lblock = [float(v) for v in pb.linear.violation(x)] if c["A"] else []
+        lblock = [float(v) for v in pb.linear.violation(x)] if (c["A"] or c.get("Aeq")) else []
         nblock = [float(v) for v in np.maximum(cub, 0.0)]
         feas = bool(pb.bounds.is_feasible)
         bs = "[" + ", ".join(f"({_lim(l)}, {_lim(u)})" for l, u in zip(lb, ub)) + "]"
@@ -90,6 +95,7 @@ def run_assembly_cases(cases):
         for v, l, u in zip(x, lb, ub):
             ex += [l - v if np.isfinite(l) else 0.0, v - u if np.isfinite(u) else 0.0]
         ex += [float(np.dot(a, x)) - bb for a, bb in zip(c["A"], c["b"])]
+        ex += [abs(float(np.dot(a, x)) - bb) for a, bb in zip(c.get("Aeq", []), c.get("beq", []))]
         ex += [float(v) for v in cub]
         out.append([got, None, max(ex), feas])
     d = os.path.join(common.LEAN, ".lake", "audit")
@@ -108,7 +114,7 @@ def run_assembly_cases(cases):
 
 def assembly_tie(chk, cases, replaying=False):
     res = run_assembly_cases(cases)
-    stats = {"cases": len(cases), "bound_block_computed": 0, "positive": 0, "zero": 0, "agree": 0}
+    stats = {"cases": len(cases), "bound_block_computed": 0, "with_equality_row": sum(1 for c in cases if c.get("Aeq")), "positive": 0, "zero": 0, "agree": 0}
     for c, (got, model, true, feas) in zip(cases, res):
         stats["bound_block_computed"] += (not feas)
         stats["positive" if true > 0 else "zero"] += 1
@@ -124,7 +130,7 @@ def assembly_tie(chk, cases, replaying=False):
         else:
             stats["agree"] += 1
     if not replaying:
-        chk.coverage["maxcv_assembly_tie"] = dict(stats, rule="exact comparison on dyadic data of Problem.maxcv with the Lean definition assembleMaxcv (the subject of maxcv_assembled_true / maxcv_zero_iff) evaluated over Q, and with the independent maximum of the stated excesses; bounds consistent (block skipped) / inconsistent (block computed) / absent, 0-2 linear rows, 0-2 nonlinear values, a share with no violated row (count_nonzero shortcut)")
+        chk.coverage["maxcv_assembly_tie"] = dict(stats, rule="exact comparison on dyadic data of Problem.maxcv with the Lean definition assembleMaxcv (the subject of maxcv_assembled_true / maxcv_zero_iff) evaluated over Q, and with the independent maximum of the stated excesses; bounds consistent (block skipped) / inconsistent (block computed) / absent, 0-2 linear inequality rows, 0-1 linear equality rows (lb = ub), 0-2 nonlinear values, a share with no violated row (count_nonzero shortcut)")
 
 
 def truth(chk, verdicts):
